@@ -27,7 +27,7 @@ def run(ctx, replay_jobs=None):
         "survivors undisturbed after every commit); oracle: at every commit of an interaction / cell-veto handler "
         "each unit of the in-state its candidate was computed from has the same velocity and lies on the same line in "
         "the global state (exact rationals)",
-        replay_jobs=replay_jobs, coq_legs=ctx.n(120, 300))
+        replay_jobs=replay_jobs, coq_legs=ctx.n(60, 300))
 
 
 def replay(ctx, path):
